@@ -9,6 +9,7 @@ import (
 	"os/exec"
 	"path/filepath"
 	"strings"
+	"syscall"
 	"time"
 
 	jd1 "github.com/josephburnett/jd/lib"
@@ -120,6 +121,7 @@ type Inv struct {
 	O         bool   `json:"o"`
 	Obad      bool   `json:"obad"` // -o names a file in a directory that does not exist
 	Oin       string `json:"oin"`  // -o names one of the input files ("in1", "in2"): in place
+	Fifo      bool   `json:"fifo"` // the second file argument is a named pipe
 	P         bool   `json:"p"`
 	T         string `json:"t"`
 	Gdd       bool   `json:"gdd"`
@@ -538,7 +540,7 @@ func driveProc(p *Plan, shard int, w *Writer, t *codec.Table) {
 		if sess%p.Shards != shard {
 			continue
 		}
-		isErrCase := inv.Obad || inv.Oin != "" || inv.Pair == 9 || inv.In2 == "mismatch" || inv.In1 != "ok" || inv.In2 != "ok" || inv.Version || inv.Gdd || inv.Nargs == 0 || inv.Nargs >= 3 || inv.F == "bogus" || inv.T == "bogus" || inv.Setkeys == "bad" || (inv.P && inv.T != "")
+		isErrCase := inv.Obad || inv.Fifo || inv.Oin != "" || inv.Pair == 9 || inv.In2 == "mismatch" || inv.In1 != "ok" || inv.In2 != "ok" || inv.Version || inv.Gdd || inv.Nargs == 0 || inv.Nargs >= 3 || inv.F == "bogus" || inv.T == "bogus" || inv.Setkeys == "bad" || (inv.P && inv.T != "")
 		if !isErrCase && !keep(p.Seed, frac, "inv", ii) {
 			continue
 		}
@@ -688,7 +690,34 @@ func driveProc(p *Plan, shard int, w *Writer, t *codec.Table) {
 			if inv.Bin != "v2" {
 				bin = p.Bins["top"]
 			}
+			var fifoDone chan struct{}
+			if inv.Fifo && !useStdin {
+				// the second file argument is a named pipe: a file like any other to a program that reads it to the end
+				os.Remove(f2)
+				if syscall.Mkfifo(f2, 0600) == nil {
+					fifoDone = make(chan struct{})
+					go func() {
+						defer close(fifoDone)
+						if fw, err := os.OpenFile(f2, os.O_WRONLY, 0); err == nil { // blocks until jd opens the pipe
+							fw.WriteString(in2)
+							fw.Close()
+						}
+					}()
+				}
+			}
 			po := runProc(bin, argv, stdin, dir)
+			if fifoDone != nil {
+				// release the writer if jd never opened the pipe, then put the regular file back
+				if fr, err := os.OpenFile(f2, os.O_RDONLY|syscall.O_NONBLOCK, 0); err == nil {
+					select {
+					case <-fifoDone:
+					case <-time.After(5 * time.Second):
+					}
+					fr.Close()
+				}
+				os.Remove(f2)
+				os.WriteFile(f2, []byte(in2), 0644)
+			}
 			fb, err := os.ReadFile(outFile)
 			if inv.O && sess%2 == 1 && strings.HasPrefix(string(fb), "stale output of an earlier run\nstale") {
 				return po, "", false // untouched: jd did not write the file
